@@ -42,8 +42,8 @@ HOT = ['utilcachepool', 'utilmapunbounded', 'confmain', 'clawpkg', 'utilcachecal
 
 def tiers(tier):
     if tier == 'thorough':
-        return {'runs': 40000, 'wall': 900, 'chunk': 25, 'det_runs': 12}
-    return {'runs': 1400, 'wall': 75, 'chunk': 10, 'det_runs': 8}
+        return {'runs': 80000, 'wall': 900, 'chunk': 25, 'det_runs': 20, 'chunks_per_job': 8}
+    return {'runs': 5000, 'wall': 70, 'chunk': 10, 'det_runs': 10}
 
 
 # ------------------------------------------------------------------ generation
@@ -227,7 +227,8 @@ def _run_op(op, ctx):
         elif k == 'is_subhint':
             out = ['ok', door.is_subhint(H.build_hint(op['a']), H.build_hint(op['b']))]
         elif k == 'infer':
-            out = ['ok', repr(door.infer_hint(H.build_obj(op['x'])))]
+            # union members come out in set order (address-dependent): compare order-insensitively
+            out = ['ok', ''.join(sorted(repr(door.infer_hint(H.build_obj(op['x'])))))]
         elif k == 'claw_pkg':
             from beartype import claw
             conf = ops.build_conf(op['conf'])
